@@ -7,7 +7,7 @@ CONSTANTS
   Flip4 <- MCEmpty
   Cidr4B <- MCEmpty
   Sweep6 <- MCEmpty
-  Base6 <- MCBase6
+  Base6 <- MCNet6Q
   Net6 <- MCNet6Q
   Flip6 <- MCFlip6T
   Cidr6B <- MCEmpty
